@@ -37,12 +37,67 @@ def count_msgs(dec):
     return n
 
 
+def split_items(tree):
+    """the depth-1 items of a printed list '(a (b c) d)' -> ['a', '(b c)', 'd']"""
+    items, depth, cur = [], 0, []
+    for ch in tree:
+        if ch == "(":
+            depth += 1
+            if depth == 1:
+                continue
+        elif ch == ")":
+            depth -= 1
+            if depth == 0:
+                break
+        if depth == 1 and ch == " ":
+            if cur:
+                items.append("".join(cur))
+                cur = []
+            continue
+        cur.append(ch)
+    if cur:
+        items.append("".join(cur))
+    return items
+
+
+LIFE_RE = re.compile(r"^dec=(\(.*\)) err=(\S+)$")
+
+
+def life_oracle(cid, c, out, fails, bump):
+    """connection lifecycle through the real streamWriter: every connection's bytes, read by the fresh
+       decoder the reader side builds for that connection, are exactly the messages written to it"""
+    parts = out.split(" | ")
+    conns = split_items(c[4])
+    wf = parts[0] == "wf=1"
+    bump("L/%s/%s" % (c[1], "wf" if wf else "nonwf"))
+    bump("L-connections=%d" % len(conns))
+    if len(parts) - 1 != len(conns):
+        fails.append(dict(name="life-" + cid, cid=cid, what="writer harness did not get through all connections: " + parts[-1][:120]))
+        return
+    for i, (part, want) in enumerate(zip(parts[1:], conns)):
+        m = LIFE_RE.match(part)
+        if not m:
+            fails.append(dict(name="life-" + cid, cid=cid, what="connection %d: %s" % (i, part[:120])))
+            return
+        dec, err = m.groups()
+        if err == "panic":
+            fails.append(dict(name="panic-" + cid, cid=cid, what="the decoder panics on connection %d" % i))
+            return
+        if wf and (dec != want or err != "eof"):
+            fails.append(dict(name="life-" + cid, cid=cid,
+                              what="connection %d of %d: the messages written to it are not read back by a fresh decoder (err=%s, %d of %d messages)"
+                                   % (i, len(conns), err, count_msgs(dec), count_msgs(want))))
+            return
+
+
 def oracle(cases, impl):
     """The property evaluated on the implementation's outputs only:
        (1) a well-formed sequence is decoded to exactly the sequence that was encoded, then a clean EOF;
        (2) every truncated stream decodes to a prefix of what the whole stream decodes to, followed by an
            error (EOF / unexpected EOF, or the very error the whole stream ends with) — never another message;
-       (3) no stream makes a codec panic."""
+       (3) no stream makes a codec panic;
+       (4) through the real streamWriter: every connection's bytes decode, with a fresh decoder, to exactly the
+           messages written to that connection (life_oracle)."""
     fails = []
     hist = {}
 
@@ -54,6 +109,9 @@ def oracle(cases, impl):
         out = impl.get(cid)
         if out is None:
             fails.append(dict(name="missing-" + cid, cid=cid, what="no implementation output"))
+            continue
+        if kind == "L":
+            life_oracle(cid, c, out, fails, bump)
             continue
         m = OUT_RE.match(out)
         if not m:
@@ -96,6 +154,8 @@ def nontrivial(c):
     # a sequence with >= 2 messages, or a raw stream of >= 9 bytes
     if c[0] == "S":
         return count_msgs(c[4]) >= 2
+    if c[0] == "L":
+        return len(split_items(c[4])) >= 2
     return len(c[4]) > 18
 
 
@@ -147,9 +207,9 @@ def run(ctx):
                             f.write(line if line.endswith("\n") else line + "\n")
             runs.append(("corpus", "-replay %s" % path))
         if quick:
-            runs.append(("fresh", "-seed %d -n 120 -nraw 300 -nall 24 -nbig 2 -exh 3" % ctx.seed))
+            runs.append(("fresh", "-seed %d -n 120 -nraw 300 -nall 24 -nbig 2 -exh 3 -nlife 40" % ctx.seed))
         else:
-            runs.append(("fresh", "-seed %d -n 1500 -nraw 6000 -nall 600 -nbig 6 -bigcuts full -exh 5" % ctx.seed))
+            runs.append(("fresh", "-seed %d -n 1500 -nraw 6000 -nall 600 -nbig 6 -bigcuts full -exh 5 -nlife 600" % ctx.seed))
 
     all_mism, all_fail, total, hist_all, samples, distinct = [], [], 0, {}, [], set()
     for sub, args in runs:
@@ -180,7 +240,7 @@ def run(ctx):
 
     def search():
         # larger generation judged by the direct oracle only
-        d2, err, _ = run_both(ctx, "search", "-seed %d -n 600 -nraw 3000 -nall 100 -nbig 2 -exh 4" % (ctx.seed + 1000003))
+        d2, err, _ = run_both(ctx, "search", "-seed %d -n 600 -nraw 3000 -nall 100 -nbig 2 -exh 4 -nlife 400" % (ctx.seed + 1000003))
         if d2 is None:
             return []
         cases = parse_cases(os.path.join(d2, "cases.tsv"))
